@@ -1,6 +1,7 @@
 (* C09  Buying power: orders are covered by cash, reserved cash is conserved. *)
 From RQ Require Import Model.Num Model.Account Model.Reserve Proofs.NumFacts Proofs.ReserveFacts.
 From RQ Require Import Model.Broker Proofs.BrokerFacts Gen.BrokerProg.
+From RQ Require Import Model.Matcher Model.Order Proofs.OrderFacts Proofs.ComposeFacts.
 Open Scope Q_scope.
 
 (* For every protocol-conforming interleaving of submissions, fills and terminal announcements of any number of
@@ -22,6 +23,27 @@ Theorem C09_no_overdraft_step : forall price fprice q oq fee est reserve,
   0 < oq -> 0 < q -> q <= oq -> price <= fprice -> 0 <= fprice -> fee <= q / oq * est ->
   reserve == fprice * oq + est -> price * q + fee <= q / oq * reserve.
 Proof. exact open_fill_covered. Qed.
+
+(* composition with C04: the protocol hypothesis `wf_run` above is not an assumption about the broker - the per-order lifecycle machine of
+   Model/Order.v (whose correspondence with SimulationBroker is C04's) emits, for ANY inputs the broker can produce, events that form a
+   conforming run; so over an order's whole life reserved cash is the unfilled fraction of its reserve and nothing stays reserved once it is
+   final.  (`ins_ok`: fills positive and within the remainder - proved of the matcher in C06 - and day boundaries in order - C08.) *)
+Theorem C09_protocol_discharged_by_lifecycle : forall id qty reserve ins, 0 < qty -> 0 <= reserve -> ins_ok (fresh_order qty) ins ->
+  let s0 := {| rs_frozen := 0; rs_book := [] |} in
+  let o := fst (orun (fresh_order qty) ins) in
+  let evs := revs_of id qty reserve (snd (orun (fresh_order qty) ins)) in
+  wf_run s0 evs /\ RInv (fold_left rstep evs s0) /\
+  (os_status o <> Active -> rs_frozen (fold_left rstep evs s0) == 0) /\
+  (os_status o = Active -> rs_frozen (fold_left rstep evs s0) == (qty - os_filled o) / qty * reserve).
+Proof. exact lifecycle_discharges_reserve_protocol. Qed.
+(* non-vacuity: submitted in the auction, a partial fill of 300, a bar without a match, a second fill whose rest is cancelled *)
+Example C09_composition_example :
+  let ins := [ISubmit true; IMatch (Filled 10 300 0 false) 3; IMatch NoMatch 0; IMatch (Filled 10 500 0 true) 5] in
+  ins_ok (fresh_order 1000) ins /\
+  os_status (fst (orun (fresh_order 1000) ins)) = SCancelled /\
+  revs_of 7 1000 10008 (snd (orun (fresh_order 1000) ins)) =
+    [RPendingNew {| r_id := 7; r_qty := 1000; r_filled := 0; r_reserve := 10008 |}; RTrade 7 300; RTrade 7 500; RTerminal 7].
+Proof. cbv zeta. split; [|split; vm_compute; reflexivity]. cbn. repeat split; try exact I; try discriminate; vm_compute; try reflexivity; discriminate. Qed.
 
 Example C09_example :
   let o := {| r_id := 1; r_qty := 1000; r_filled := 0; r_reserve := 10008 |} in
@@ -47,3 +69,4 @@ Print Assumptions C09_release_trade.
 Print Assumptions C09_release_terminal.
 Print Assumptions C09_no_overdraft_step.
 Print Assumptions C09_code_broker_is_model.
+Print Assumptions C09_protocol_discharged_by_lifecycle.
